@@ -26,6 +26,8 @@ thread_local! {
     pub static KILL_AFTER_START: std::cell::Cell<bool> = std::cell::Cell::new(false);
     /// construct the server with `HttpServer::new_from_fd` on a listener bound by the harness
     pub static SERVER_FROM_FD: std::cell::Cell<bool> = std::cell::Cell::new(false);
+    /// signal the kill switch before it is handed to the server (one-shot)
+    pub static KILL_PRESIGNALLED: std::cell::Cell<bool> = std::cell::Cell::new(false);
 }
 
 /// draw the construction variant of the next world(s) from the case bytes
@@ -230,6 +232,12 @@ impl World {
             Some(k) => Some(k.try_clone().map_err(|e| e.to_string())?),
             None => None,
         };
+        let presignalled = KILL_PRESIGNALLED.with(|c| c.replace(false)) && kill_h.is_some();
+        if presignalled {
+            if let Some(k) = &kill_h {
+                let _ = k.write(1);
+            }
+        }
         let dir = scratch_dir();
         let path = dir.join(format!("s{}.sock", SOCK_COUNTER.fetch_add(1, Ordering::Relaxed)));
         let _ = std::fs::remove_file(&path);
@@ -267,7 +275,7 @@ impl World {
             clients,
             outstanding: vec![],
             kill: kill_h,
-            killed: false,
+            killed: presignalled,
             base,
             devnull,
             limit: crate::DEFAULT_LIMIT,
